@@ -99,7 +99,11 @@ def decide(out, obs, props, ncases, nprogs, st, rule):
     out.cov["rule"] = rule + "; non-trivial = composes at least two constructs; a run = one (program, input, store)"
     nt = set()
     samples = []
-    for o in vlib.read_ndjson(obs):
+    failing = {fl["line"] for fl in fails}
+    origin = {}
+    for ln, o in enumerate(vlib.read_ndjson(obs)):
+        if ln in failing:
+            origin[ln] = {k: o[k] for k in ("src", "ast", "input", "host", "inject", "trace", "stores") if k in o}
         if "ast" in o and progs.nontrivial(o["ast"]):
             nt.add(o["src"])
         if len(samples) < 5 and o.get("case", 0) % 1777 == 0 and "runs" in o:
@@ -114,11 +118,19 @@ def decide(out, obs, props, ncases, nprogs, st, rule):
             if f["prop"] not in props:
                 continue
             why = "%s [%s] %s %s" % (f["prop"], f["store"], f["why"], (f.get("msg") or "")[:90])
-            out.fail(f.get("kf", "NEW"), why, {"src": fl["src"], "store": f["store"], "why": f["why"], "status": f["status"], "msg": f.get("msg", ""),
+            out.fail(f.get("kf", "NEW"), why, {"src": fl["src"], "run_case": origin.get(fl["line"]), "store": f["store"], "why": f["why"], "status": f["status"], "msg": f.get("msg", ""),
                                                "expected_value": fl.get("expv"), "expected_log": fl.get("explog"), "got": f.get("got"), "got_log": f.get("gotlog")},
                      family="%s [%s] %s %s" % (f["prop"], f["store"], f["why"], (f.get("msg") or "")[:60]))
 
 
-def replay(out, path):
-    case = json.load(open(path))["case"]
-    raise vlib.ToolError("replay of C01 cases: run `bin/check C01 quick` (cases are regenerated deterministically); case was: %s" % case.get("src"))
+def replay(out, path, props=("C01",)):
+    """Re-decides one recorded case: the program text with its AST, input and host script is run again on both stores and validated by V_Run."""
+    case = json.load(open(path))["case"].get("run_case")
+    if not case:
+        raise vlib.ToolError("the replay file carries no run_case (recorded by an older revision): re-run the full check")
+    wd = vlib.workdir(out.pid)
+    cases = os.path.join(wd, "cases.ndjson")
+    vlib.write_ndjson(cases, [case])
+    obs = os.path.join(wd, "obs.ndjson")
+    st = vlib.run_workers("run", cases, 1, obs, timeout=20)
+    decide(out, obs, props, 1, 1, st, "replay of one recorded case")
